@@ -34,6 +34,66 @@ def c_files(fcp, outdir):
         return None, e
 
 
+def cpp_twins(chk, fails, nsch, nval):
+    """The generated C++ codec on twins (compiled with g++): both twins must write the Python codec's bytes and read them back."""
+    import cxx_run
+    import ref_wire
+    from props import c03
+    from fcp.specs.type import StructType
+    from concurrent.futures import ThreadPoolExecutor
+    work = common.scratch_dir("verif_c15cpp_")
+    try:
+        prepared = []
+        for k in range(nsch):
+            desc = c03.cpp_desc(chk.rng, 4)
+            tw = twin(chk.rng, desc)
+            for tag, d in ((f"a{k}", desc), (f"b{k}", tw)):
+                text = gen_schema.render(d)
+                fcp = serde_run.parse(text).unwrap()
+                outdir = f"{work}/{tag}"
+                try:
+                    cxx_run.generate_cpp(fcp, outdir)
+                    prepared.append((k, text, fcp, outdir))
+                except Exception as e:
+                    fails.append({"kind": "c++-generator-raised", "schema": text, "error": repr(e)})
+        with ThreadPoolExecutor(max_workers=8) as ex:
+            built = list(ex.map(lambda p: cxx_run.build(p[3]), prepared))
+        values = {}
+        for (k, text, fcp, outdir), (exe, err) in zip(prepared, built):
+            if exe is None:
+                fails.append({"kind": "generated-c++-does-not-compile", "schema": text, "error": [l for l in (err or "").split("\n") if "error" in l][:2]})
+                continue
+            drv = cxx_run.Driver(exe)
+            try:
+                if k not in values:
+                    vs = []
+                    for _ in range(nval):
+                        s = chk.rng.choice(fcp.structs)
+                        v = c03.clean_value(chk.rng, fcp, s.name)
+                        if v is not None:
+                            vs.append((s.name, v))
+                    values[k] = vs
+                for name, v in values[k]:
+                    canonical = list(ref_wire.wire_bytes(fcp, name, v))
+                    ans = drv.ask_or_crash(f"E {name} {cxx_run.to_json(v)}")
+                    b = list(bytes.fromhex(ans[3:])) if ans.startswith("OK ") else None
+                    ans2 = drv.ask_or_crash(f"D {name} {bytes(canonical).hex()}")
+                    try:
+                        d = json.loads(ans2[3:]) if ans2.startswith("OK ") else None
+                    except ValueError:
+                        d = None
+                    chk.count((text, name, json.dumps(v, sort_keys=True), "c++"), nontrivial=True, sample=None)
+                    chk.hist("c++ twin", "case")
+                    if b != canonical:
+                        fails.append({"kind": "c++-codec-encode", "schema": text, "struct": name, "value": v, "bytes": b, "canonical": canonical})
+                    if d is None or not to_coq.values_equal(fcp, StructType(name), c03.coerce(fcp, StructType(name), d), v):
+                        fails.append({"kind": "c++-codec-decode", "schema": text, "struct": name, "value": v, "canonical": canonical, "decoded": d, "answer": ans2[:200]})
+            finally:
+                drv.close()
+    finally:
+        shutil.rmtree(work, ignore_errors=True)
+
+
 def run(chk):
     from fcp.specs.type import StructType
     quick = chk.tier == "quick"
@@ -41,7 +101,7 @@ def run(chk):
     broken = chk.proof_obligations(["Corr/Serde.vo", "Corr/Layout.vo"])
     chk.coverage["rule"] = (
         "each generated schema is run next to a twin whose structs declare the same fields (same ids) in a shuffled order: "
-        "Python codec bytes (serde profile), packed layout for both unroll settings, DBC text and generated C sources (fixed profile "
+        "Python codec bytes (serde profile), generated C++ codec (compiled, both directions), packed layout for both unroll settings, DBC text and generated C sources (fixed profile "
         "with CAN impls) must be identical, and both twins must agree with the Coq model; non-trivial = the twin's declaration order differs")
     ser_cases, lay_cases, meta_s, meta_l, fails = [], [], [], [], []
     for _ in range(nser):
@@ -91,6 +151,7 @@ def run(chk):
             chk.hist("dbc", "ok" if ea is None else "raises")
     finally:
         shutil.rmtree(work, ignore_errors=True)
+    cpp_twins(chk, fails, 2 if quick else 12, 12 if quick else 40)
     chk.log(f"{len(ser_cases)} codec cases, {len(lay_cases)} layout cases; implementation-side failures: {len(fails)}")
     chk.coverage["traces_validated_against_impl"] = len(ser_cases) + len(lay_cases)
     mism_s, mism_l = [], []
@@ -112,7 +173,7 @@ def run(chk):
                            "unroll": meta_l[i][1]}, no_failing_input=True)
         if not mism_s and not mism_l and broken is not None:
             chk.violation({"kind": "proof-obligation", "broken": broken, "theorem": "Props/C15.v"}, no_failing_input=True)
-    chk.assumptions += ["the generated C++ codecs are compared on twins by the C03 check (compiled behaviour), not here",
+    chk.assumptions += ["the generated C++ codecs are compiled and run on a few twins here (encode = canonical bytes, decode of canonical bytes = value) and at length by the C03 check",
                         "DBC text and generated C sources are compared verbatim between twins (implementation side); the Coq theorems cover the Python codec and the layout every CAN back end consumes"]
 
 
